@@ -185,6 +185,8 @@ def validate_traces(lines, workdir, name, shards=None, timeout=1800, profile="de
     # a scenario that measures something every later verdict depends on (the row capacity, C20) goes first in every shard
     common = [g for g in groups if '"tag":"measure_rowcap"' in g[0]]
     groups = [g for g in groups if '"tag":"measure_rowcap"' not in g[0]]
+    if not groups:          # nothing but the measuring scenario itself: it is validated like any other
+        groups, common = common, []
     # balance by bytes
     bins = [[] for _ in range(shards)]
     sizes = [0] * shards
